@@ -100,6 +100,8 @@ pub struct SessionSpec {
     pub lines: Vec<SLine>,
     /// inject a failure into line `.0` at instruction `.1`
     pub crash: Option<(usize, u64)>,
+    /// cut the compilation of line `.0` short at compilation step `.1`
+    pub compile_crash: Option<(usize, u64)>,
     pub collect_every_step: bool,
     pub alloc_mode: u8,
     /// the caller releases a value it was handed as soon as no variable can reach it any more
@@ -114,6 +116,7 @@ impl SessionSpec {
             "kind": "session",
             "lines": self.lines.iter().map(|l| l.to_json()).collect::<Vec<_>>(),
             "crash": self.crash.map(|(l, k)| json!({"line": l, "step": k})),
+            "compile_crash": self.compile_crash.map(|(l, k)| json!({"line": l, "step": k})),
             "collect_every_step": self.collect_every_step,
             "alloc_mode": alloc::mode_name(self.alloc_mode),
             "caller_releases": self.caller_releases,
@@ -124,6 +127,11 @@ impl SessionSpec {
             lines: v["lines"].as_array().map(|a| a.iter().map(SLine::from_json).collect()).unwrap_or_default(),
             crash: if v["crash"].is_object() {
                 Some((v["crash"]["line"].as_u64().unwrap_or(0) as usize, v["crash"]["step"].as_u64().unwrap_or(0)))
+            } else {
+                None
+            },
+            compile_crash: if v["compile_crash"].is_object() {
+                Some((v["compile_crash"]["line"].as_u64().unwrap_or(0) as usize, v["compile_crash"]["step"].as_u64().unwrap_or(0)))
             } else {
                 None
             },
@@ -152,6 +160,7 @@ pub struct LineRun {
     pub out: String,
     pub injected: Injected,
     pub steps: u64,
+    pub compile_steps: u64,
     pub effects: u64,
     pub findings: Vec<Finding>,
     pub log: u64,
@@ -274,6 +283,7 @@ impl Session {
                 out: std::mem::take(&mut ctx.out),
                 injected: ctx.injected.clone(),
                 steps: ctx.step,
+                compile_steps: ctx.compile_step,
                 effects: ctx.effects,
                 findings,
                 log: ctx.fold.0,
@@ -329,6 +339,9 @@ pub struct SessionResult {
     pub skeleton: String,
     pub crash_tuple: Option<(usize, usize, u64)>,
     pub line_steps: Vec<u64>,
+    pub line_compile_steps: Vec<u64>,
+    pub compile_injected_fired: bool,
+    pub lines_judged_by_model_alone: u64,
     pub inconsistent: bool,
     pub transcript: Vec<String>,
     pub collections: u64,
@@ -458,6 +471,9 @@ pub fn run_session(spec: &SessionSpec, verbose: bool) -> SessionResult {
         skeleton: String::new(),
         crash_tuple: None,
         line_steps: Vec::new(),
+        line_compile_steps: Vec::new(),
+        compile_injected_fired: false,
+        lines_judged_by_model_alone: 0,
         inconsistent: false,
         transcript: Vec::new(),
         collections: 0,
@@ -486,7 +502,13 @@ pub fn run_session(spec: &SessionSpec, verbose: bool) -> SessionResult {
         }
         // what the generator promised must be what the model says, else the case is discarded
         let promised_ok = line.fail == Fail::None;
-        if promised_ok != m.outcome.is_ok() && !reads_poisoned {
+        // after an injected failure the generator's promise about later lines is void (they were
+        // written for a session in which the cut-short line completed): the model alone decides
+        let judged_by_model = promised_ok != m.outcome.is_ok() && !reads_poisoned && (res.injected_fired || res.compile_injected_fired);
+        if judged_by_model {
+            res.lines_judged_by_model_alone += 1;
+        }
+        if promised_ok != m.outcome.is_ok() && !reads_poisoned && !judged_by_model {
             res.inconsistent = true;
             res.inconsistent_why = format!("[{}] promised {:?}, model says {} :: {}", line.label, line.fail, m.outcome.render().chars().take(90).collect::<String>(), text.chars().take(160).collect::<String>());
             if verbose {
@@ -505,6 +527,10 @@ pub fn run_session(spec: &SessionSpec, verbose: bool) -> SessionResult {
         if crash_here {
             plan.crash_at = spec.crash.map(|(_, k)| k);
         }
+        let compile_crash_here = matches!(spec.compile_crash, Some((l, _)) if l == li);
+        if compile_crash_here {
+            plan.compile_crash_at = spec.compile_crash.map(|(_, k)| k);
+        }
         let mut r = s.run_line(&text, &plan);
         if spec.caller_releases {
             let f = s.caller_release();
@@ -513,6 +539,7 @@ pub fn run_session(spec: &SessionSpec, verbose: bool) -> SessionResult {
         res.lines_run += 1;
         res.steps += r.steps;
         res.line_steps.push(r.steps);
+        res.line_compile_steps.push(r.compile_steps);
         res.collections += r.collections;
         log.u64(r.log);
         log.str(&r.outcome.render());
@@ -521,7 +548,14 @@ pub fn run_session(spec: &SessionSpec, verbose: bool) -> SessionResult {
             res.lines_after_failure += 1;
         }
         let injected_now = crash_here && r.injected == Injected::Crash;
-        let label = if injected_now { format!("{}!inject", line.label) } else { line.label.clone() };
+        let compile_injected_now = compile_crash_here && r.injected == Injected::CompileCrash;
+        let label = if injected_now {
+            format!("{}!inject", line.label)
+        } else if compile_injected_now {
+            format!("{}!compile-inject", line.label)
+        } else {
+            line.label.clone()
+        };
         skeleton.push(label.clone());
         if verbose {
             res.transcript.push(format!(
@@ -552,6 +586,21 @@ pub fn run_session(spec: &SessionSpec, verbose: bool) -> SessionResult {
         }
         if stop {
             break;
+        }
+        if compile_injected_now {
+            res.compile_injected_fired = true;
+            // the compilation fails as a whole: nothing of the line ran, nothing of it exists afterwards
+            let ok = r.steps == 0 && matches!(&r.outcome, Outcome::Err(k, msg) if k == "TypeError" && msg == nederlang::verif::INJECTED_FAILURE);
+            if !ok {
+                findings.push(Finding {
+                    class: "line-outcome-differs".into(),
+                    key: format!("compile-injected->{}|after:{}", kind_of(&r.outcome, &r.injected), last_fail),
+                    detail: format!("line {} ({:?}) whose compilation was cut short at step {} ended with {} after executing {} instructions", li, text, plan.compile_crash_at.unwrap(), r.outcome.render(), r.steps),
+                });
+                break;
+            }
+            last_fail = "compile-inject".into();
+            continue;
         }
         if injected_now {
             res.injected_fired = true;
@@ -627,6 +676,18 @@ pub fn run_session(spec: &SessionSpec, verbose: bool) -> SessionResult {
             });
             break;
         }
+        if judged_by_model {
+            if m.outcome.is_ok() {
+                p.extend(line.stmts.iter().map(|s| s.src.clone()));
+                out_p = m.out.clone();
+                continue;
+            } else if r.steps == 0 {
+                // failed before anything ran (a reference to a name the cut-short line would have declared)
+                last_fail = "compile".into();
+                continue;
+            }
+            break;
+        }
         // extend P
         match (&line.fail, &m.outcome) {
             (Fail::None, _) => {
@@ -635,6 +696,11 @@ pub fn run_session(spec: &SessionSpec, verbose: bool) -> SessionResult {
                 if matches!(&r.outcome, Outcome::Ok(v) if v.contains('"') || v.contains('[') || v.contains('/')) && li > 0 {
                     res.heap_values_crossed_lines = true;
                 }
+            }
+            (Fail::Run(_), _) if r.steps == 0 => {
+                // (after an injected failure) the line did not get as far as running: a reference
+                // to a name the cut-short line would have declared. Nothing of it completed.
+                last_fail = "compile".into();
             }
             (Fail::Run(idx), _) => {
                 let idx = (*idx).min(line.stmts.len());
@@ -1510,6 +1576,7 @@ fn random_session(rng: &mut Rng) -> SessionSpec {
     SessionSpec {
         lines,
         crash: None,
+        compile_crash: None,
         collect_every_step,
         alloc_mode,
         caller_releases,
@@ -1520,7 +1587,7 @@ fn random_session(rng: &mut Rng) -> SessionSpec {
 // directed sessions
 
 fn directed(i: usize) -> Option<SessionSpec> {
-    let mk = |lines: Vec<SLine>| SessionSpec { lines, crash: None, collect_every_step: false, alloc_mode: alloc::PLAIN, caller_releases: i % 2 == 0 };
+    let mk = |lines: Vec<SLine>| SessionSpec { lines, crash: None, compile_crash: None, collect_every_step: false, alloc_mode: alloc::PLAIN, caller_releases: i % 2 == 0 };
     match i {
         0 => {
             // many failing lines that each leave operands and frames behind, then function calls
@@ -1747,6 +1814,10 @@ fn account(acc: &mut Acc, spec: &SessionSpec, r: &SessionResult) {
     if r.injected_fired {
         acc.count("fault_injected_failure_fired", 1);
     }
+    if r.compile_injected_fired {
+        acc.count("fault_injected_compile_failure_fired", 1);
+    }
+    acc.count("probe_line_after_injection_judged_by_model_alone", r.lines_judged_by_model_alone);
     if r.read_poisoned {
         acc.count("probe_line_read_a_name_declared_by_a_failed_line", 1);
     }
@@ -1822,6 +1893,31 @@ fn explore(acc: &mut Acc, base: &SessionSpec, seed: u64, index: u64, all_k: bool
             log.u64(r.log);
         }
     }
+    // compile-time abort points: every line that reaches the compiler, at every compilation step
+    // (all of them for enumerated sessions, a seeded handful per line otherwise)
+    for li in 0..base.lines.len().min(r0.line_compile_steps.len()) {
+        let n = r0.line_compile_steps[li];
+        if n == 0 {
+            continue;
+        }
+        let ks: Vec<u64> = if all_k || n <= 6 {
+            (0..n).collect()
+        } else {
+            let mut v: Vec<u64> = (0..3).map(|_| rng.below(n)).collect();
+            v.sort();
+            v.dedup();
+            v
+        };
+        for k in ks {
+            let mut sp = base.clone();
+            sp.compile_crash = Some((li, k));
+            acc.begin(&sp.to_json());
+            let r = run_session(&sp, false);
+            account(acc, &sp, &r);
+            report(acc, &sp, &r, seed, index);
+            log.u64(r.log);
+        }
+    }
     log.0
 }
 
@@ -1859,7 +1955,7 @@ pub fn scenario(acc: &mut Acc, seed: u64, index: u64, tier: Tier) {
             3
         };
         let lines = enumerated_session(code, len);
-        let sp = SessionSpec { lines, crash: None, collect_every_step: false, alloc_mode: alloc::PLAIN, caller_releases: index % 4 != 3 };
+        let sp = SessionSpec { lines, crash: None, compile_crash: None, collect_every_step: false, alloc_mode: alloc::PLAIN, caller_releases: index % 4 != 3 };
         acc.count("enumerated_sessions", 1);
         h = explore(acc, &sp, seed, index, true, &mut rng);
         // the same session once more with a collection at every instruction boundary
@@ -1925,7 +2021,7 @@ pub fn shrink(sp: &Value, class: &str, key: &str) -> Value {
         while i > 0 {
             i -= 1;
             tries += 1;
-            if matches!(spec.crash, Some((l, _)) if l == i) {
+            if matches!(spec.crash, Some((l, _)) if l == i) || matches!(spec.compile_crash, Some((l, _)) if l == i) {
                 continue;
             }
             let mut c = spec.clone();
@@ -1933,6 +2029,11 @@ pub fn shrink(sp: &Value, class: &str, key: &str) -> Value {
             if let Some((l, k)) = c.crash {
                 if l > i {
                     c.crash = Some((l - 1, k));
+                }
+            }
+            if let Some((l, k)) = c.compile_crash {
+                if l > i {
+                    c.compile_crash = Some((l - 1, k));
                 }
             }
             if same(&c) {
@@ -1946,7 +2047,7 @@ pub fn shrink(sp: &Value, class: &str, key: &str) -> Value {
         let mut si = 0;
         while si < spec.lines[li].stmts.len() && tries < 1200 {
             tries += 1;
-            if spec.lines[li].stmts.len() <= 1 || spec.lines[li].effect_equiv.is_some() {
+            if spec.lines[li].stmts.len() <= 1 || spec.lines[li].effect_equiv.is_some() || matches!(spec.compile_crash, Some((l, _)) if l == li) {
                 break;
             }
             let mut c = spec.clone();
@@ -1975,6 +2076,20 @@ pub fn shrink(sp: &Value, class: &str, key: &str) -> Value {
             }
             let mut c = spec.clone();
             c.crash = Some((l, k2));
+            if same(&c) {
+                spec = c;
+                break;
+            }
+        }
+    }
+    if let Some((l, k)) = spec.compile_crash {
+        for k2 in 0..k {
+            tries += 1;
+            if tries > 1600 {
+                break;
+            }
+            let mut c = spec.clone();
+            c.compile_crash = Some((l, k2));
             if same(&c) {
                 spec = c;
                 break;
